@@ -53,11 +53,13 @@ RUNS_RULE = ("runs stream: history of runs (driver x report-dir source x reporti
              "and manual deletions on a real project directory; non-trivial = at least 3 runs at the default location one of which "
              "follows a run that left its directory empty or re-uses an in-process object (Project / cli_args / cli.main again)")
 
-ENV_KEYS = ("LCC_THREADS", "LCC_REPORT_DIR", "LCC_REPORTING", "LCC_SAVE_REPORT", "LCC_PROJECT", "LCC_PROJECT_FILE", "LCCVERIF_LIMIT")
+ENV_KEYS = ("LCC_THREADS", "LCC_REPORT_DIR", "LCC_REPORTING", "LCC_SAVE_REPORT", "LCC_PROJECT", "LCC_PROJECT_FILE", "LCCVERIF_LIMIT",
+            "LCCVERIF_ATTACH")
 DEFAULT_LIMIT = 20
 DRIVERS = ["main", "main-env", "reuse-project", "reuse-args", "reuse-both"]
 
-SUITE = '''import time
+SUITE = '''import os
+import time
 import lemoncheesecake.api as lcc
 
 @lcc.suite("s")
@@ -65,11 +67,27 @@ class s1:
     @lcc.test("t")
     def t1(self):
         lcc.log_info("run at %r" % time.time())
+        if os.environ.get("LCCVERIF_ATTACH"):
+            lcc.save_attachment_content("kept at %r" % time.time(), "note.txt", "a note")
 '''
 
 PROJECT_PY = '''import os
 from lemoncheesecake.project import Project
+from lemoncheesecake.reporting.backend import FileReportBackend
 from lemoncheesecake.reporting.reportdir import create_report_dir_with_rotation
+
+
+class NoteBackend(FileReportBackend):
+    # a project-defined file backend: `--reporting console note` leaves report-note.txt and none of the built-in files
+    def get_name(self):
+        return "note"
+
+    def get_report_filename(self):
+        return "report-note.txt"
+
+    def save_report(self, filename, report):
+        with open(filename, "w") as fh:
+            fh.write("tests: %%d\\n" %% len(list(report.all_tests())))
 
 
 class MyProject(Project):
@@ -84,6 +102,7 @@ class MyProject(Project):
 
 
 project = MyProject()
+project.reporting_backends["note"] = NoteBackend()
 project.threaded = %(threaded)s
 '''
 
@@ -116,6 +135,11 @@ def gen_case(rng, i):
             rep = base_rep if rng.random() < 0.55 else rng.choice(["json", "console", "console", "env-console", "default"])
             if sub and rep == "default":
                 rep = "json"
+            # the reporting backends as an input: any combination, fixed lists and +/^ directives, option and variable
+            if rng.random() < 0.4:
+                rep = rng.choice(BACKEND_EXPRS + (CUSTOM_EXPRS * 2 if kind == "file" else []))
+                if rng.random() < 0.3 and not rep.startswith("cli:+") and not rep.startswith("cli:^"):
+                    rep = "env:" + rep[4:]
             limit = base_limit if (not override or rng.random() < 0.8) else rng.choice(["default", None, 1, 2, 3])
             cli = env = None
             r2 = rng.random()
@@ -134,6 +158,8 @@ def gen_case(rng, i):
             elif r3 < 0.22:
                 abort = "save-report"
             ops.append({"op": "run", "how": how, "cli": cli, "env": env, "limit": limit, "reporting": rep, "abort": abort})
+            if rng.random() < 0.2:
+                ops[-1]["attach"] = True        # the test saves an attachment: `attachments/` whatever the backends are
             runs += 1
         elif r < 0.90:
             ops.append({"op": "delete", "n": rng.randint(1, max(2, min(runs, 4)))})
@@ -144,10 +170,62 @@ def gen_case(rng, i):
     return {"project": {"kind": kind, "override": override, "threaded": threaded}, "ops": ops}
 
 
+# `--reporting` / `$LCC_REPORTING` expressions: fixed lists (html without json and xml; junit alone; xml; everything) and turn
+# on / off directives over the project's defaults (console, json, html)
+BACKEND_EXPRS = ["cli:console html junit", "cli:html junit", "cli:html", "cli:junit", "cli:xml", "cli:console xml html",
+                 "cli:json xml junit html", "cli:console junit", "cli:^json", "cli:+junit", "cli:^json +junit", "cli:^json ^html",
+                 "cli:+xml ^json"]
+# with the project-defined backend `note` of PROJECT_PY (projects with a project.py only)
+CUSTOM_EXPRS = ["cli:console note", "cli:html note", "cli:+note", "cli:note"]
+DEFAULT_BACKENDS = ["console", "json", "html"]
+FILE_KINDS = ["json", "xml", "junit", "html", "custom"]
+BACKEND_OF_KIND = {"custom": "note"}
+KIND_OF_FILE = {"report.js": "json", "report.xml": "xml", "report-junit.xml": "junit", "report.html": "html", "report-note.txt": "custom",
+                "attachments": "attachments"}
+
+
+def backend_names(op):
+    """the reporting backends of the run, from the documentation of `--reporting` / `$LCC_REPORTING`"""
+    r = op["reporting"]
+    if r in ("json", "console"):
+        return [r]
+    if r == "env-console":
+        return ["console"]
+    if r == "default":
+        return list(DEFAULT_BACKENDS)
+    words = r.split(":", 1)[1].split()
+    if all(w[0] not in "+^" for w in words):
+        return words
+    names = list(DEFAULT_BACKENDS)
+    for w in words:
+        if w[0] == "+" and w[1:] not in names:
+            names.append(w[1:])
+        elif w[0] == "^":
+            names.remove(w[1:])
+    return names
+
+
+def files_of(op):
+    """what a COMPLETED run leaves in its directory, by kind (canonical order)"""
+    names = backend_names(op)
+    kinds = [k for k in FILE_KINDS if BACKEND_OF_KIND.get(k, k) in names]
+    if op.get("attach"):
+        kinds.append("attachments")
+    return kinds
+
+
+def kinds_in(fp):
+    """the kinds of files a directory listing (fingerprint) shows, canonical order"""
+    have = {KIND_OF_FILE[name] for name, _ in fp if name in KIND_OF_FILE}
+    return [k for k in FILE_KINDS + ["attachments"] if k in have]
+
+
 def run_argv(op, paths):
     argv = []
     if op["reporting"] in ("json", "console"):
         argv += ["--reporting", op["reporting"]]
+    elif op["reporting"].startswith("cli:"):
+        argv += ["--reporting"] + op["reporting"][4:].split()
     if op["cli"] is not None:
         argv += ["--report-dir", paths(op["cli"])]
     if op["abort"] == "threads-cli":
@@ -161,6 +239,10 @@ def run_env(op, paths):
     env = {}
     if op["reporting"] == "env-console":
         env["LCC_REPORTING"] = "console"
+    elif op["reporting"].startswith("env:"):
+        env["LCC_REPORTING"] = op["reporting"][4:]
+    if op.get("attach"):
+        env["LCCVERIF_ATTACH"] = "1"
     if op["env"] is not None:
         env["LCC_REPORT_DIR"] = paths(op["env"])
     if op["abort"] == "threads-env":
@@ -185,7 +267,7 @@ def fate(op):
 
 
 def writes(op):
-    return op["reporting"] in ("json", "default")
+    return bool(files_of(op))
 
 
 def effective_limit(case, op):
@@ -260,6 +342,7 @@ def scan(top, ext, tracker):
                 st["stray"].append("reports/" + name)
     st["arch"].sort()
     st["filled"].sort()
+    st["content"] = sorted([int(key[2:]), kinds_in(fp)] for key, fp in st["prints"].items() if key.startswith("fs"))
     for k in (0, 1, 2):
         p = os.path.join(ext, "given-%d" % k)
         if os.path.isdir(p):
@@ -526,7 +609,8 @@ def to_model_ops(case):
             continue
         lim = effective_limit(case, op)
         impl = "default" if (not case["project"]["override"] or op["limit"] == "default") else {"limit": lim}
-        out.append({"op": "run", "cli": op["cli"], "env": op["env"], "impl": impl, "writes": writes(op), "fate": fate(op)})
+        out.append({"op": "run", "cli": op["cli"], "env": op["env"], "impl": impl, "writes": writes(op), "fate": fate(op),
+                    "files": files_of(op)})
     return out
 
 
@@ -540,6 +624,8 @@ def compare(case, obs, ans):
         if m == "stuck":
             return f"op {k}: model stuck"
         mine = {x: o[x] for x in ("current", "arch", "filled", "other")}
+        if "content" in m:
+            mine["content"] = o["content"]
         if m != mine:
             return f"op {k} ({case['ops'][k]}): model {m} vs impl {mine}"
     return None
@@ -589,6 +675,13 @@ class Runs(C.Stream):
                 f.append("how:" + op["how"])
                 f.append("reporting:" + op["reporting"])
                 f.append("fate:" + fate(op))
+                if op.get("attach"):
+                    f.append("test-saves-attachment")
+                if explicit_target(op) is None and fate(op) != "before" and prev["current"] is not None:
+                    pk = kinds_in(prev["prints"].get("fs%d" % prev["current"], []))
+                    f.append("previous-dir-holds:" + ("+".join(pk) or "nothing"))
+                    if "html" in pk and "json" not in pk and "xml" not in pk:
+                        f.append("previous-dir:html-without-json-and-xml")
                 t = explicit_target(op)
                 f.append("source:" + ("project" if t is None else ("cli" if truthy(op["cli"]) else "env") + ":" +
                                       ("default-loc" if t == "default" else "other")))
@@ -630,10 +723,11 @@ class Runs(C.Stream):
             yield dict(case, ops=ops[:i] + ops[i + 1:])
         for i, op in enumerate(ops):
             if op["op"] == "run":
-                for key, val in (("abort", None), ("env", None), ("cli", None), ("limit", "default")):
-                    if op[key] != val:
+                for key, val in (("abort", None), ("env", None), ("cli", None), ("limit", "default"), ("attach", None)):
+                    if op.get(key) != val:
                         yield dict(case, ops=ops[:i] + [dict(op, **{key: val})] + ops[i + 1:])
-        if case["project"]["kind"] == "file" and not case["project"]["override"] and case["project"]["threaded"]:
+        uses_note = any("note" in op.get("reporting", "") for op in ops if op["op"] == "run")
+        if case["project"]["kind"] == "file" and not case["project"]["override"] and case["project"]["threaded"] and not uses_note:
             yield dict(case, project={"kind": "dir", "override": False, "threaded": True})
 
 
@@ -666,6 +760,12 @@ Runs.corpus = [
                                {"op": "delcur"}, _run(cli="default"), _run(), _run(cli="", env={"other": 1}), _run(abort="save-report")]},
     # fresh processes
     {"project": _FILE, "ops": [_run("subprocess"), _run("subprocess", reporting="console"), _run("subprocess")]},
+    # a project-defined file backend alone / beside html
+    {"project": _FILE, "ops": [_run(reporting="cli:console note"), _run(reporting="cli:html note"), _run()]},
+    # what the PREVIOUS run left: html + junit without report.js / report.xml, html alone, junit alone, only attachments
+    {"project": _DIR, "ops": [_run(reporting="cli:console html junit"), _run()]},
+    {"project": _DIR, "ops": [_run(reporting="cli:html"), _run(reporting="cli:junit"), _run(reporting="env:html junit"), _run(reporting="cli:^json"),
+                              _run(reporting="console", attach=True), _run(reporting="cli:xml"), _run()]},
 ]
 
 
